@@ -14,6 +14,7 @@ import (
 	"net"
 	"net/http"
 	"net/http/httptest"
+	"net/url"
 	"sync"
 	"time"
 
@@ -245,6 +246,67 @@ func init() {
 				continue
 			}
 			req.Host = host
+			req.GetBody = func() (io.ReadCloser, error) { return http.NoBody, nil }
+			p, resp, err := auth.AuthenticatedDo(ts.Client(), req)
+			if resp != nil && resp.Body != nil {
+				io.Copy(io.Discard, resp.Body)
+				resp.Body.Close()
+			}
+			ids, errs = append(ids, p), append(errs, err)
+		}
+		return
+	}
+}
+
+// ---- a history of AuthenticatedDo calls on ONE ClientPeerIDAuth against several servers,
+//      under several hostnames, requests with and without Host -------------------------------
+func init() {
+	handshake.VerifE2EClientHosts = func(priv crypto.PrivKey, nsrv int, plan func(urlHosts []string) []handshake.VerifHostReq,
+		beforeCall func(call int), respond func(call, srv int, seenHost, reqHdr string) (status int, www, info string)) (ids []peer.ID, errs []error) {
+		call := 0
+		var tss []*httptest.Server
+		var urlHosts []string
+		for i := 0; i < nsrv; i++ {
+			srv := i
+			ts := httptest.NewServer(http.HandlerFunc(func(w http.ResponseWriter, r *http.Request) {
+				status, www, info := respond(call, srv, r.Host, r.Header.Get("Authorization"))
+				if www != "" {
+					w.Header().Set("WWW-Authenticate", www)
+				}
+				if info != "" {
+					w.Header().Set("Authentication-Info", info)
+				}
+				w.WriteHeader(status)
+			}))
+			defer ts.Close()
+			tss = append(tss, ts)
+			u, err := url.Parse(ts.URL)
+			if err != nil {
+				panic(err)
+			}
+			urlHosts = append(urlHosts, u.Host)
+		}
+		reqs := plan(urlHosts)
+		auth := httppeeridauth.ClientPeerIDAuth{PrivKey: priv}
+		for call = 0; call < len(reqs); call++ {
+			beforeCall(call)
+			ts := tss[reqs[call].Srv]
+			u, err := url.Parse(ts.URL)
+			if err != nil {
+				ids, errs = append(ids, ""), append(errs, err)
+				continue
+			}
+			var req *http.Request
+			if reqs[call].Host == "" {
+				// built by hand: no Host; the transport sends u.Host
+				req = &http.Request{Method: "GET", URL: u, Header: make(http.Header)}
+			} else {
+				if req, err = http.NewRequest("GET", ts.URL, nil); err != nil {
+					ids, errs = append(ids, ""), append(errs, err)
+					continue
+				}
+				req.Host = reqs[call].Host
+			}
 			req.GetBody = func() (io.ReadCloser, error) { return http.NoBody, nil }
 			p, resp, err := auth.AuthenticatedDo(ts.Client(), req)
 			if resp != nil && resp.Body != nil {
